@@ -44,11 +44,12 @@ def early_order() -> str:
     return "c3" if st and st[0] == "fixed" else "allbases"
 
 
-def cfg_text(source: str, maxn: int, docstates: List[str], invariants: bool = True) -> str:
+def cfg_text(source: str, maxn: int, docstates: List[str], invariants: bool = True, late_orders: str = "all") -> str:
     inv = "".join(f"INVARIANT {i}\n" for i in INVARIANTS) if invariants else ""
     ds = "{" + ", ".join(json.dumps(d) for d in docstates) + "}"
     return (f"SPECIFICATION Spec\nCONSTANTS MaxN = {maxn}\n          Source = \"{source}\"\n"
-            f"          DocStates = {ds}\n          EarlyOrder = \"{early_order()}\"\nCONSTRAINT Emit\n{inv}")
+            f"          DocStates = {ds}\n          EarlyOrder = \"{early_order()}\"\n          LateOrders = \"{late_orders}\"\n"
+            f"CONSTRAINT Emit\n{inv}")
 
 
 # ----------------------------------------------------------------------------------- rendering a case
@@ -122,14 +123,20 @@ def render_case(h: int, rec: Dict[str, Any]) -> Dict[str, Any]:
             mods.append((mn, lines))
         return {"modules": mods, "where": where}
     if lay["kind"] == "late":
-        # one class per module, plain `import` of the bases' modules, modules ADDED (= analysed) in the order `born`:
-        # a base living in a module analysed later is resolved only in the second pass.  Legal Python: the import graph
-        # follows the (acyclic) hierarchy.  Early lookups directly after the class statement.
+        # one class per module; the modules are ADDED in lay.order; module c = [`if TYPE_CHECKING: import x` when
+        # lay.back = [c, x]] ; `import` of the bases' modules ; class ; early lookups.  Every import has the imported
+        # module analysed on the spot unless it is being analysed (cycle), so a base is unknown at the class statement
+        # only through the TYPE_CHECKING cycle.  Legal Python from any entry point: the executed imports follow the
+        # (acyclic) hierarchy.
         mods = []
         where = {}
-        for c in sorted(range(1, n + 1), key=lambda x: rec["born"][x - 1]):
+        bc, bx = rec["lay"]["back"]
+        for c in rec["lay"]["order"]:
             mn = f"l{h}_m{c}"
-            lines = [f"import l{h}_m{b}" for b in sorted(set(bases[c - 1]))]
+            lines = []
+            if bc == c:
+                lines += ["from typing import TYPE_CHECKING", "if TYPE_CHECKING:", f"    import l{h}_m{bx}"]
+            lines += [f"import l{h}_m{b}" for b in sorted(set(bases[c - 1]))]
             bs = [f"l{h}_m{b}.{cname(b)}" + ("[int]" if subscripted(h, c, j) else "") for j, b in enumerate(bases[c - 1])]
             where[c] = (mn, cname(c), len(lines) + 1)
             lines.append(f"class {cname(c)}({', '.join(bs)}):" if bs else f"class {cname(c)}:")
@@ -189,7 +196,7 @@ def segments_plan(h: int, rec: Dict[str, Any]) -> Dict[str, Any]:
     def is_from(a: int, b: int, names: List[int]) -> bool:
         return bool(names) and form[f"{a}{b}"] == "from"
 
-    # pydoctor's creation order: modules in the order added; `from x import` processes x first when still unprocessed
+    # pydoctor's creation order: modules in the order added; any import processes the module first when still unprocessed
     born: Dict[int, int] = {}
     state = {1: "un", 2: "un", 3: "un"}
 
@@ -198,7 +205,7 @@ def segments_plan(h: int, rec: Dict[str, Any]) -> Dict[str, Any]:
         for st in prog[m]:
             if st[0] == "class":
                 born[st[1]] = len(born) + 1
-            elif is_from(st[1], st[2], st[3]) and state[st[2]] == "un":
+            elif state[st[2]] == "un":          # `import x` and `from x import ..` alike (since /repo 54d0328)
                 process(st[2])
         state[m] = "done"
 
@@ -520,7 +527,7 @@ def judge_case(ctx: Ctx, rec: Dict[str, Any], obs: Dict[str, Any], origin: str) 
         inv = failed[0][0]
         ctx.violation({"invariant": inv, "origin": origin,
                        "failed": [{"invariant": a, "class": b, "expected": e, "observed": o} for a, b, e, o in failed],
-                       "case": {k: rec[k] for k in ("n", "bases", "member", "born", "early") if k in rec} | {"layout": rec.get("layout"), "h": obs["h"]},
+                       "case": {k: rec[k] for k in ("n", "bases", "member", "born", "early", "lay") if k in rec} | {"layout": rec.get("layout"), "h": obs["h"]},
                        "reference": {"c3": rec["c3"], "own": rec["own"], "find_ref": rec["find_ref"],
                                      "src_ref": rec["src_ref"], "doc_ref": rec["doc_ref"]},
                        "observed": {k: obs[k] for k in ("mro", "warn", "find", "src", "doc", "inherited", "overrides", "early")},
@@ -609,7 +616,7 @@ def random_graphs(rng: random.Random, count: int) -> List[Dict[str, Any]]:
         for c in range(1, n + 1):
             others = [x for x in range(1, n + 1) if x != c]
             bases.append(rng.sample(others, rng.choice([0, 1, 1, 2, 2, 3])))
-        out.append({"n": n, "bases": bases, "member": ["absent"] * n, "born": list(range(1, n + 1)), "layout": {"kind": "graph"}})
+        out.append({"n": n, "bases": bases, "member": ["absent"] * n, "born": [], "layout": {"kind": "graph"}})
     return out
 
 
@@ -651,12 +658,13 @@ def cpython_import_check(ctx: Ctx, recs: List[Dict[str, Any]], first_h: int) -> 
 
 # ------------------------------------------------------------------------------------------------- check
 def tlc_cases(ctx: Ctx, source: str, maxn: int, docstates: List[str], out: Dict[str, Any], **kw: Any) -> None:
+    key = kw.pop("key", source)
     try:
-        r = ctx.tlc("MRO", cfg_text(source, maxn, docstates, invariants=True), workers=kw.pop("workers", 6),
-                    check=True, timeout=1500, cfg_name=f"MRO_{source}.cfg", **kw)
-        out[source] = r
+        r = ctx.tlc("MRO", cfg_text(source, maxn, docstates, invariants=True, late_orders=kw.pop("late_orders", "all")),
+                    workers=kw.pop("workers", 6), check=True, timeout=1500, cfg_name=f"MRO_{key}.cfg", **kw)
+        out[key] = r
     except BaseException as e:            # re-raised in the main thread
-        out[source] = e
+        out[key] = e
 
 
 def run(ctx: Ctx) -> int:
@@ -669,8 +677,10 @@ def run(ctx: Ctx) -> int:
     threads = [threading.Thread(target=tlc_cases, args=(ctx, "enum", 5, docstates, results), kwargs={"coverage": ctx.quick}),
                threading.Thread(target=tlc_cases, args=(ctx, "members", 4, docstates, results)),
                threading.Thread(target=tlc_cases, args=(ctx, "graph", 3, docstates, results), kwargs={"workers": 2}),
-               threading.Thread(target=tlc_cases, args=(ctx, "late", 3 if ctx.quick else 4,
-                                                        docstates if ctx.quick else ["absent", "doc"], results), kwargs={"workers": 2})]
+               threading.Thread(target=tlc_cases, args=(ctx, "late", 3, docstates, results), kwargs={"workers": 3})]
+    if not ctx.quick:
+        threads.append(threading.Thread(target=tlc_cases, args=(ctx, "late", 4, ["absent", "doc"], results),
+                                        kwargs={"workers": 4, "key": "late4", "late_orders": "two"}))
     ctx.spec_dir()                      # stage once, before the concurrent TLC runs
     for t in threads:
         t.start()
@@ -679,17 +689,23 @@ def run(ctx: Ctx) -> int:
     for v in results.values():
         if isinstance(v, BaseException):
             raise v
-    design = {s: list(results[s].violated) for s in results}
+    design = {s_: list(results[s_].violated) for s_ in results}
     enum = sorted(results["enum"].printed, key=sort_key)
     members = sorted(results["members"].printed, key=sort_key)
     graph = sorted(results["graph"].printed, key=sort_key)
     for g in graph:
         g["layout"] = {"kind": "graph"}
-    late = sorted(results["late"].printed, key=lambda r: json.dumps([r["bases"], r["member"], r["born"]]))
+    late = sorted(results["late"].printed, key=lambda r: json.dumps([r["bases"], r["member"], r["lay"]]))
+    if len(late) != 10 * len(docstates) ** 3 * 6 * 7:
+        raise MachineryError(f"TLC emitted {len(late)} late cases, expected {10 * len(docstates) ** 3 * 6 * 7}")
+    if "late4" in results:
+        late4 = sorted(results["late4"].printed, key=lambda r: json.dumps([r["bases"], r["member"], r["lay"]]))
+        if len(late4) != 160 * 16 * 2 * 13:
+            raise MachineryError(f"TLC emitted {len(late4)} late (4 classes) cases, expected {160 * 16 * 2 * 13}")
+        late += late4
     for g in late:
         g["layout"] = {"kind": "late"}
-    want = {"enum": 10400, "members": 160 * len(docstates) ** 4, "graph": 125,
-            "late": 10 * 27 * 6 if ctx.quick else 160 * 16 * 24}
+    want = {"enum": 10400, "members": 160 * len(docstates) ** 4, "graph": 125, "late": len(late)}
     for name, recs in (("enum", enum), ("members", members), ("graph", graph), ("late", late)):
         if len(recs) != want[name]:
             raise MachineryError(f"TLC emitted {len(recs)} {name} cases, expected {want[name]}")
@@ -825,6 +841,8 @@ def replay(ctx: Ctx, path: str) -> int:
            "src_pd": w["observed"]["src"], "doc_pd": w["observed"]["doc"], "early_pd": w["observed"].get("early", [])}
     if case.get("early"):
         rec["early"] = case["early"]
+    if case.get("lay"):
+        rec["lay"] = case["lay"]
     rec["late"] = (w.get("model") or {}).get("late") or [False] * case["n"]
     for k in ("early_pd", "early_base_pd"):
         rec[k] = (w.get("model") or {}).get(k) or w["observed"].get("early", [])
